@@ -164,8 +164,11 @@ static void arena_free(void *p, uintptr_t pc)
   size_t start = b->base - ARENA_BASE;
   size_t end8 = (start + b->size + 7) & ~(size_t)7;
   memset(shadow + (start >> 3), SH_FREED, (end8 - start) >> 3);
-  // poison the payload so stale reads by uninstrumented code are visible too
-  memset((void *)b->base, 0xDD, b->size);
+  // poison the payload of blocks a property talks about, so stale reads (also by uninstrumented
+  // code) misbehave visibly; infrastructure blocks keep their contents (a stale read there is an
+  // incidental observation, counted but never alarmed)
+  if (b->tag == SIM_TAG_SUT)
+    memset((void *)b->base, 0xDD, b->size);
 }
 
 void arena_check_access(Thread *me, uintptr_t a, size_t n, bool write, uintptr_t pc)
